@@ -29,7 +29,7 @@ SHAPES = [
     ("prefix_map", 2, False, Q), ("priority", 2, False, Q), ("reverse", 2, False, Q), ("upgrade", 2, False, Q),
     ("jsonld", 2, False, Q), ("epm", 2, False, Q), ("rdflib", 2, False, Q), ("files", 2, False, Q),
     ("prefix_map", 3, False, T, dict(budget=1200, shard=6)), ("priority", 3, False, T, dict(budget=1800, shard=6)),
-    ("reverse", 3, False, T, dict(budget=2400, shard=8)), ("upgrade", 3, False, T, dict(budget=2400, shard=8)),
+    ("reverse", 3, False, Q, dict(budget=2400, shard=6)), ("upgrade", 3, False, T, dict(budget=2400, shard=8)),
     ("jsonld", 3, False, T, dict(budget=2400, shard=8)),
 ]
 
